@@ -19,6 +19,7 @@ mod c20;
 mod corpus;
 mod ev;
 mod evolve;
+mod libmodel;
 mod pcf;
 mod refbin;
 mod refocf;
